@@ -185,9 +185,9 @@ struct C07 : Scenario {
     bool ack = false; int cls = -1;   // cls: 0 K/250, 4 temporary, 5 permanent, -1 none
     std::string proto = c->daemon == "smtpd" ? "SMTP" : c->daemon == "qmtpd" ? "QMTP" : "QMQP";
     if (c->daemon == "smtpd") {
-      size_t g = o.find("354 "); if (g != std::string::npos) { size_t l = o.find("\r\n", g); std::string after = l == std::string::npos ? "" : o.substr(l + 2); if (after.compare(0, 7, "250 ok ") == 0) { ack = true; cls = 0; } else if (after.size() >= 3 && after[0] == '4') cls = 4; else if (after.size() >= 3 && after[0] == '5') cls = 5; }
+      size_t g = o.find("354 "); if (g != std::string::npos) { size_t l = o.find("\r\n", g); std::string after = l == std::string::npos ? "" : o.substr(l + 2); if (after.size() >= 3 && after[0] == '2') { ack = true; cls = 0; }   /* any 2xx after the dot is the acknowledgement; the text is not the oracle's business */ else if (after.size() >= 3 && after[0] == '4') cls = 4; else if (after.size() >= 3 && after[0] == '5') cls = 5; }
       else { // refused before DATA (over-long address etc.): look at the RCPT/MAIL replies
-        if (o.find("\r\n555 ") != std::string::npos || o.find("\r\n553 ") != std::string::npos || o.find("\r\n503 ") != std::string::npos) cls = 5; }
+        size_t i = 0; while (i < o.size()) { if (o[i] == '4' || o[i] == '5') { cls = o[i] - '0'; break; } size_t e = o.find("\r\n", i); if (e == std::string::npos) break; i = e + 2; } }   /* the first refusal decides; what follows answers the orphaned body lines */
     } else {
       // netstring responses: one per recipient (qmtpd) or one (qmqpd)
       size_t i = 0; int nk = 0, nz = 0, nd = 0, n = 0;
